@@ -6,6 +6,7 @@ PROPERTY = {
     "explanation": "the real insert / remove / lookup code run on EVERY valid red-black tree of depth <= 3 (<= 7 nodes; one unit per tree shape, colours/keys/positions symbolic; a deterministic sample (every 16th) of the depth-4 shapes = up to 15 nodes in the thorough tier; VERIF_FULL_D4=1 runs all of them, ~3 h), every key position (new or resident) and every node to remove; the result is judged by a recursive checker over the actual links (search order, parent links, black root, no red node with a red child, equal black heights) and by node count + lookups (element set)",
     "trusted_base": ["cbmc 6.11.0 (SAT back end CaDiCaL)"],
     "assumptions": [
+        "descent lemmas rbt_lemma_search / rbt_lemma_descent (harness/search_lemma.c, shared with C01): the loops of a_rbt_search and a_rbt_insert under DFCC loop contracts on an arbitrary heap with ghost key intervals; the rebalancing call is replaced by a recording contract; 'absent when the search falls off' follows on paper from the disjointness of the intervals",
         "induction over histories: every operation is verified from every valid tree of the bounded depth; UNBOUNDED part: rbt_lemma_insert_step / rbt_lemma_remove_step prove the inductive step of the two fix-up loops (a_rbt_insert_adjust, a_rbt_remove_adjust; all cases and mirrors, packed layout) on windows with ghost black heights up to 2^20, using the loop-head hooks of src/rbt.c: every terminating path restores a valid tree with the old black height, the continuing path re-establishes the loop invariant one level up; the induction over the climb loop is a paper step. Descent, the three unlink cases of a_rbt_remove and the decision whether to call the fix-up are decided only on the bounded whole trees",
         "whole-tree units use the node layout with separate parent/factor fields (A_SIZE_POINTER=1): cbmc cannot propagate pointers through the packed parent word ((uintptr)parent + colour) and the packed whole-tree encoding needs > 40 GB. The packed layout is covered by accessor round-trip proofs  and, in the thorough tier only, by packed whole-tree units on trees of depth <= 2 (heavy: minutes and tens of GB); the few layout-specific lines outside the accessors (a_rbt_set_parents / a_rbt_remove copy the packed word) are only exercised there",
         "the comparison callback returns the key difference (any magnitude): only its sign may be used",
@@ -48,3 +49,7 @@ for m in _d4:
     b = "red-black tree shape (colours symbolic) 0x%04x of depth 4 (<= 15 nodes), keys and positions symbolic" % m
     UNITS.append(T("rbt_insert_d4_s%04x" % m, "h_insert", 4, tiers=("thorough",), defs=["A_SIZE_POINTER=1", "SHAPE=0x%x" % m], functions=INS, bound=b, timeout=1200, mem_est=9))
     UNITS.append(T("rbt_remove_d4_s%04x" % m, "h_remove", 4, tiers=("thorough",), defs=["A_SIZE_POINTER=1", "SHAPE=0x%x" % m], functions=REM, bound=b, timeout=1200, mem_est=9))
+
+# descent loops under loop contracts on an arbitrary heap (harness/search_lemma.c, -DTREE_RBT)
+from descent import descent_units
+UNITS += descent_units("rbt", "a_rbt_search", "a_rbt_insert", "a_rbt_insert_adjust", ["TREE_RBT"])
